@@ -371,8 +371,8 @@ struct IntCase {
     sneg: bool,
 }
 
-fn int_case() -> impl Strategy<Value = IntCase> {
-    (gen::nat_pair(Prof::Medium), any::<bool>(), any::<bool>(), any::<u16>(), any::<u64>(), 0u8..7, any::<bool>()).prop_map(|((a, b, rel), sa, sb, nsel, seed, k, sneg)| {
+fn int_case(prof: Prof) -> impl Strategy<Value = IntCase> {
+    (gen::nat_pair(prof), any::<bool>(), any::<bool>(), any::<u16>(), any::<u64>(), 0u8..7, any::<bool>()).prop_map(|((a, b, rel), sa, sb, nsel, seed, k, sneg)| {
         let n = gen::position(a.trimmed_len(), nsel, seed);
         IntCase { a: Int { neg: sa && !a.is_zero(), mag: a }, b: Int { neg: sb && !b.is_zero(), mag: b }, rel, n, k, sneg }
     })
@@ -391,6 +391,15 @@ fn int_labels(out: &mut Out, c: &IntCase) {
     });
     if c.b.mag.is_zero() {
         out.label("divisor:zero (all forms must panic)");
+    }
+}
+
+/// pow exponent, capped for long bases so that results stay in the low thousands of words
+fn pow_exp(c: &IntCase) -> usize {
+    if c.a.mag.trimmed_len() > 70 {
+        (c.k as usize).min(3)
+    } else {
+        c.k as usize
     }
 }
 
@@ -495,7 +504,7 @@ fn ubig_forms(c: &IntCase, _ctx: &Ctx) -> Out {
     agree(&mut out, "UBig gcd_ext", if both_zero { Pan } else { Ret }, v);
     shift_forms!(out, "UBig shl", a, c.n, <<, <<=);
     shift_forms!(out, "UBig shr", a, c.n, >>, >>=);
-    sqr_forms!(out, "UBig", a, c.k as usize, UBig::ONE);
+    sqr_forms!(out, "UBig", a, pow_exp(c), UBig::ONE);
     let mut v: Forms = Vec::new();
     v.push(("neg val", fv!(-a.clone())));
     v.push(("neg ref", fv!(-&a)));
@@ -560,7 +569,7 @@ fn ibig_forms(c: &IntCase, _ctx: &Ctx) -> Out {
     agree(&mut out, "IBig gcd_ext", if both_zero { Pan } else { Ret }, v);
     shift_forms!(out, "IBig shl", a, c.n, <<, <<=);
     shift_forms!(out, "IBig shr", a, c.n, >>, >>=);
-    sqr_forms!(out, "IBig", a, c.k as usize, IBig::ONE);
+    sqr_forms!(out, "IBig", a, pow_exp(c), IBig::ONE);
     let mut v: Forms = Vec::new();
     v.push(("neg val", fv!(-a.clone())));
     v.push(("neg ref", fv!(-&a)));
@@ -664,6 +673,62 @@ fn mixed_forms(c: &IntCase, _ctx: &Ctx) -> Out {
     met4!(v, ia, ub, gcd_ext);
     v.push(("IBig::from(rhs) gcd_ext", fv!((&ia).gcd_ext(&IBig::from(ub.clone())))));
     agree(&mut out, "IBig gcd_ext UBig", if both_zero { Pan } else { Ret }, v);
+    out
+}
+
+// ------------------------------------------------------------------------------------------------
+// division by a ConstDivisor: forms of the same division
+// (the num-traits / num-integer impls are not compiled in the harness configuration: those cargo
+// features of dashu-int are off)
+// ------------------------------------------------------------------------------------------------
+
+fn const_divisor_forms(c: &IntCase, _ctx: &Ctx) -> Out {
+    let mut out = Out::new();
+    int_labels(&mut out, c);
+    let ub = c.b.mag.ubig();
+    let cdr = catch(|| ConstDivisor::new(ub.clone()));
+    let cd = match cdr {
+        Ok(cd) => cd,
+        Err(m) => {
+            if !c.b.mag.is_zero() {
+                out.fail(format!("ConstDivisor::new panicked for a non-zero divisor: {}", normalise(&m)));
+            }
+            out.label("divisor:zero (ConstDivisor::new must panic)");
+            return out;
+        }
+    };
+    if c.b.mag.is_zero() {
+        out.fail("ConstDivisor::new(0) returned");
+        return out;
+    }
+    out.label(match c.b.mag.trimmed_len() {
+        1 => "ring:single word",
+        2 => "ring:double word",
+        _ => "ring:large",
+    });
+    macro_rules! cd_forms {
+        ($a:ident, $what:expr) => {{
+            let mut v: Forms = Vec::new();
+            v.push(("plain div_rem by UBig ref.ref", fv!((&$a).div_rem(&ub))));
+            v.push(("/,% val.&ConstDivisor", fv!(($a.clone() / &cd, $a.clone() % &cd))));
+            v.push(("/,% ref.&ConstDivisor", fv!((&$a / &cd, &$a % &cd))));
+            v.push(("/=,%= &ConstDivisor", fv!({ let (mut x, mut y) = ($a.clone(), $a.clone()); x /= &cd; y %= &cd; (x, y) })));
+            v.push(("div_rem val.&ConstDivisor", fv!($a.clone().div_rem(&cd))));
+            v.push(("div_rem ref.&ConstDivisor", fv!((&$a).div_rem(&cd))));
+            v.push(("div_rem_assign &ConstDivisor", fv!({ let mut x = $a.clone(); let r = x.div_rem_assign(&cd); (x, r) })));
+            agree(&mut out, $what, Ret, v);
+        }};
+    }
+    let ua = c.a.mag.ubig();
+    let ia = c.a.ibig();
+    cd_forms!(ua, "UBig div/rem by ConstDivisor");
+    cd_forms!(ia, "IBig div/rem by ConstDivisor");
+    // reducing into the ring from the different source types
+    let mut v: Forms = Vec::new();
+    v.push(("reduce(IBig)", fv!(cd.reduce(ia.clone()))));
+    v.push(("reduce(UBig) with the sign applied by Neg", fv!(if c.a.neg { -cd.reduce(ua.clone()) } else { cd.reduce(ua.clone()) })));
+    v.push(("reduce(IBig % &ConstDivisor)", fv!(cd.reduce(&ia % &cd))));
+    agree(&mut out, "ConstDivisor reduce", Ret, v);
     out
 }
 
@@ -1346,7 +1411,7 @@ fn ring_case() -> impl Strategy<Value = RingCase> {
     )
         .prop_map(|(m, a, b, e, rel)| {
             let mut m = if m.is_zero() { Nat(vec![1]) } else { m };
-            if rel >= 5 {
+            if rel >= 3 {
                 m.0[0] |= 1; // odd modulus: most elements invertible
             }
             let b = match rel {
@@ -1844,9 +1909,10 @@ fn census(ck: &mut Check) {
             }
         };
     }
-    run!(int_case(), ubig_forms);
-    run!(int_case(), ibig_forms);
-    run!(int_case(), mixed_forms);
+    run!(int_case(Prof::Medium), ubig_forms);
+    run!(int_case(Prof::Medium), ibig_forms);
+    run!(int_case(Prof::Medium), mixed_forms);
+    run!(int_case(Prof::Medium), const_divisor_forms);
     run!(prim_case(), prim_forms);
     run!(fl_case(2), float_forms::<mode::Zero, 2>);
     run!(rat_case(), rational_forms);
@@ -1874,9 +1940,12 @@ fn main() {
     if !ck.is_replay() {
         census(&mut ck);
     }
-    ck.sub("ubig_forms", (20_000, 500_000), int_case, ubig_forms);
-    ck.sub("ibig_forms", (20_000, 500_000), int_case, ibig_forms);
-    ck.sub("mixed_forms", (15_000, 375_000), int_case, mixed_forms);
+    // thorough: also operands beyond the Karatsuba / Toom-3 thresholds
+    let prof = if ck.thorough() { Prof::Large } else { Prof::Medium };
+    ck.sub("ubig_forms", (20_000, 500_000), move || int_case(prof), ubig_forms);
+    ck.sub("ibig_forms", (20_000, 500_000), move || int_case(prof), ibig_forms);
+    ck.sub("mixed_forms", (15_000, 375_000), move || int_case(prof), mixed_forms);
+    ck.sub("const_divisor_forms", (15_000, 375_000), move || int_case(prof), const_divisor_forms);
     ck.sub("prim_forms", (15_000, 375_000), prim_case, prim_forms);
     ck.sub("float_forms_b2_zero", (8_000, 200_000), || fl_case(2), float_forms::<mode::Zero, 2>);
     ck.sub("float_forms_b2_halfaway", (6_000, 150_000), || fl_case(2), float_forms::<mode::HalfAway, 2>);
